@@ -111,6 +111,19 @@ func r16_1(r *Report, p *Program, e *syncEntry) {
 			if okA && !edited {
 				okA, whyA = false, "the map given to "+m.What+" is not edited by updateStringMap(…, syncResult"+field+")"
 			}
+			// … on EVERY path: updateStringMap is what applies the hook's entries, so it must have run
+			// for this map whenever the map is written back (a short-circuit '||' between the label and
+			// the annotation merge skips the second merge whenever the first reported a change)
+			if okA {
+				for _, us := range callsTo(f, false, "decorator.updateStringMap") {
+					if engine.SameValue(us.Common().Args[0], arg) {
+						usi := us.Instr.(ssa.Instruction)
+						if w := bypass(f, m.Instr, func(in ssa.Instruction) bool { return in == usi }); w != nil {
+							okA, whyA = false, "a path reaches "+m.What+" without having merged the hook's "+strings.TrimPrefix(field, ".")+" into the map (updateStringMap skipped): entries named in the response are silently not applied; "+pathWhy(w)
+						}
+					}
+				}
+			}
 			r.Check("R16.1", FK(f)+"→"+m.What+"[own-map+hook-edits]", p.InstrPos(m.Instr), okA, "copy's own map, edited only through updateStringMap with the hook's entries", whyA)
 		case "controllerutil.RemoveFinalizer":
 			okF := strings.HasSuffix(E(ci.Common().Args[1]), ".finalizer.Name")
@@ -395,6 +408,19 @@ func r16_5(r *Report, p *Program, e *syncEntry) {
 		}
 		upd := engine.ResultValue(en.SyncObj.Instr, 0)
 		w := unguarded(f, []engine.Point{engine.After(en.SyncObj.Instr.(ssa.Instruction))}, en.Observe.Instr.(ssa.Instruction), func(l Lit) bool {
+			if l.Implied {
+				// established inside a predicate helper: recognised on the translated atom
+				u := E(upd)
+				switch {
+				case l.Pos && strings.HasPrefix(l.Atom, "call(controllerutil.ContainsFinalizer)("+u+","):
+					return true
+				case l.Pos && strings.Contains(l.Atom, "decoratorSelector.Matches)(") && strings.Contains(l.Atom, ", "+u+")"):
+					return true
+				case !l.Pos && strings.Contains(l.Atom, ".doNotMatchLabels)(") && strings.Contains(l.Atom, "GetLabels)("+u+")"):
+					return true
+				}
+				return false
+			}
 			c, isC := l.Cond.(*ssa.Call)
 			if !isC {
 				return false
